@@ -802,19 +802,36 @@ class StmtMixin:
         mods = spec.modifies if (spec is not None and spec.modifies is not None) else None
         if mods is None:
             mods = self.contract.modifies if self.contract is not None else []
-        self.havoc_locations(st, mods, st)
+        env = dict(self.entry_env or {})
+        env.update({k: v for k, v in st.env.items() if not isinstance(v, Entity)})
+        self.havoc_locations(st, mods, st, env=env)
         st.alloc = self.fresh_alloc(st)
+        # the heap at the loop head is closed: every reference stored in it denotes an object
+        # allocated before this point
+        ca = []
+        for fkey, arr in st.heap.items():
+            if isinstance(fkey, tuple) and len(fkey) == 2:
+                _, fty = self.classes.field(fkey[0], fkey[1])
+                if fty is not None and (isinstance(fty, TRef) or (isinstance(fty, TSeq) and isinstance(fty.elem, TTuple))):
+                    ca.append((arr, fty, st.alloc))
+        st.closed_arrays = tuple(ca)
 
     def fresh_alloc(self, st):
         a = fresh(TInt, 'alloc').t
         st.assume(a >= st.alloc)
         return a
 
-    def eval_clauses(self, st, clauses, extra=None, old_state=None):
-        """Evaluate contract clauses in state st -> list of (Clause, z3 Bool)."""
+    def eval_clauses(self, st, clauses, extra=None, old_state=None, loop_ord=None):
+        """Evaluate contract clauses in state st -> list of (Clause, z3 Bool).  `entry(e)` inside a
+        loop invariant is e evaluated in the state in which that loop was entered."""
         out = []
-        for cl in clauses:
-            out.append((cl, self.eval_contract_expr(st, cl.expr, extra, old_state)))
+        saved = getattr(self, 'cur_loop_ord', None)
+        self.cur_loop_ord = loop_ord
+        try:
+            for cl in clauses:
+                out.append((cl, self.eval_contract_expr(st, cl.expr, extra, old_state)))
+        finally:
+            self.cur_loop_ord = saved
         return out
 
     def exec_While(self, st, s):
@@ -992,6 +1009,7 @@ class StmtMixin:
 
         def elem(s, i):
             k = unbox(mty.k, snth(mty.k, keys0, i))
+            s.fact(z3.Contains(keys0, sunit(mty.k, box(k))))       # the i-th key is a key
             if what == 'keys':
                 return k
             m = getm(s)
@@ -1052,7 +1070,10 @@ class StmtMixin:
             spec = Loop()
         idx_name = spec.index or ('_i%s' % ordn)
         st.env[idx_name] = mk_int(0)
-        for cl, t in self.eval_clauses(st, spec.invariant, old_state=self.pre_state):
+        if not hasattr(self, 'loop_entries'):
+            self.loop_entries = {}
+        self.loop_entries[ordn] = st.copy()
+        for cl, t in self.eval_clauses(st, spec.invariant, old_state=self.pre_state, loop_ord=ordn):
             self.oblige(st, t, 'inv-entry', '%s:%s' % (label, cl.label), carries=cl.carries, node=s,
                         info={'claim': 'loop invariant holds on entry: ' + cl.expr})
         self.havoc_for_loop(st, spec, s.body + s.orelse)
@@ -1062,7 +1083,7 @@ class StmtMixin:
         st.mark('loop%s' % ordn)
         if src.unchanged is not None:
             st.assume(src.unchanged(st))
-        for cl, t in self.eval_clauses(st, spec.invariant, old_state=self.pre_state):
+        for cl, t in self.eval_clauses(st, spec.invariant, old_state=self.pre_state, loop_ord=ordn):
             st.assume(t)
         out = []
         done, more = self.fork(st, i.t == src.length, None, 'for%s-done' % ordn)
@@ -1082,7 +1103,7 @@ class StmtMixin:
                         if src.unchanged is not None:
                             self.oblige(e, src.unchanged(e), 'safety', label + ':iterated-unchanged', node=s,
                                         info={'claim': 'the container being iterated keeps its keys / items during the loop (RuntimeError or skipped items otherwise)'})
-                        for cl, t in self.eval_clauses(e, spec.invariant, old_state=self.pre_state):
+                        for cl, t in self.eval_clauses(e, spec.invariant, old_state=self.pre_state, loop_ord=ordn):
                             self.oblige(e, t, 'inv-pres', '%s:%s' % (label, cl.label), carries=cl.carries,
                                         node=s, info={'claim': 'loop invariant preserved: ' + cl.expr})
                     elif e.flow == 'break':
